@@ -106,15 +106,20 @@ def add_hostile(rng, pr, sc_root):
     for f in rng.sample(opts, rng.randint(3, len(opts))):
         f()
     if rng.random() < 0.25 and cli.unprivileged_available():
-        # an unrecorded experiment output that contains a read-only sub-directory (tools that protect their results,
-        # copied-in caches): deleting it takes more than unlink - gc then runs WITHOUT root's permission override
+        # an unrecorded experiment output that contains protected sub-directories (tools that protect their results,
+        # copied-in caches, private scratch space): deleting it takes more than unlink - gc then runs WITHOUT root's
+        # permission override.  The owner can always remove such a tree (chmod, then delete), so gc has to.
+        # modes: read-only (no w), write-only (no r: cannot be listed), no-search (no x), nothing at all
         d = os.path.join(out, "a", "protected.task.31")
-        os.makedirs(os.path.join(d, "ro", "sub"), exist_ok=True)
+        inner_mode, outer_mode = rng.choice([(0o555, 0o555), (0o300, 0o755), (0o755, 0o300), (0o000, 0o755), (0o600, 0o555), (0o300, 0o300), (0o500, 0o000), (0o555, 0o755)])
+        os.makedirs(os.path.join(d, "ro", "sub", "deeper"), exist_ok=True)
         open(os.path.join(d, "ro", "sub", "f"), "w").write("x")
+        open(os.path.join(d, "ro", "sub", "deeper", "g"), "w").write("x")
         open(os.path.join(d, "top"), "w").write("y")
-        os.chmod(os.path.join(d, "ro", "sub"), 0o555)
-        os.chmod(os.path.join(d, "ro"), 0o555)
-        added.append("a/protected.task.31 (read-only sub-directories)")
+        os.chmod(os.path.join(d, "ro", "sub", "deeper"), inner_mode)
+        os.chmod(os.path.join(d, "ro", "sub"), inner_mode)
+        os.chmod(os.path.join(d, "ro"), outer_mode)
+        added.append("a/protected.task.31 (sub-directories with modes %o/%o)" % (outer_mode, inner_mode))
         pr.unprivileged_gc = True
     # symlinks
     outside = os.path.join(sc_root, "outside-%d" % rng.randrange(10 ** 6))
